@@ -277,6 +277,9 @@ func (c *Ctx) SuccessRequiresEdges(rule string, fn *ssa.Function, name string, e
 	for _, r := range Returns(fn) {
 		cut.AddEdges(phiNonNilEdges(r)...)
 	}
+	if c.AssumeFalse != "" {
+		cut.AddEdges(HeldEdges(fn, c.AssumeFalse)...)
+	}
 	if hit := Reach(fn, nil, nil, anyOf(SuccessReturns(fn)), cut); hit != nil {
 		c.Fail(rule, inst, c.P.InstrPos(hit), "a success return of "+fname(fn)+" is reachable without passing "+name+": "+why)
 		return false
